@@ -93,6 +93,12 @@ func reportSuite(c *Check, rule string, rs []*suiteResult, proj func(outcome) st
 				continue
 			}
 			if len(tv.Und) > 0 {
+				if strings.HasPrefix(op, "random") && strings.Contains(strings.Join(tv.Und, " "), "state explosion") {
+					// a randomly drawn model too large for the path-sensitive analysis says
+					// nothing about the repository: it is left out (and counted)
+					c.Note("random models left out (state explosion)", tv.Name)
+					continue
+				}
 				und = append(und, tv.Name+": "+strings.Join(tv.Und[:min(2, len(tv.Und))], " | "))
 				continue
 			}
@@ -148,8 +154,8 @@ func checkC01(c *Check) {
 	}
 	specs := coreSuite()
 	if c.Tier == "thorough" {
-		specs = append(specs, thoroughSpecs(c.Seed, 400)...)
-		c.extraCov["thorough_models"] = "all two-level operator compositions over opaque children + 400 seeded random well-formed expressions of depth ≤ 3"
+		specs = append(specs, thoroughSpecs(c.Seed, 2400)...)
+		c.extraCov["thorough_models"] = "all two-level operator compositions over opaque children + 2400 seeded random well-formed expressions of depth ≤ 3 and 300 of depth ≤ 4"
 	}
 	rs, probs := runSuite(r, specs, []modelOpts{{Ast: true}})
 	for _, p := range probs {
@@ -268,7 +274,7 @@ func alwaysSucceedsTable(c *Check, r *Repo) {
 	rng := rand.New(rand.NewSource(c.Seed + 7))
 	nGr := 250
 	if c.Tier == "thorough" {
-		nGr = 3000
+		nGr = 20000
 	}
 	names := []string{"R0", "R1", "R2"}
 	var gen func(depth int) *mexpr
